@@ -4,7 +4,7 @@
    /repo/urwid/widget/monitored_list.py on every run. *)
 From Coq Require Import ZArith List Bool.
 Import ListNotations.
-From Urwid Require Import PyBase PyList monitored_list_gen MonitoredList PyListFacts MonitoredListProofs.
+From Urwid Require Import PyBase PyList monitored_list_gen MonitoredList PyListFacts MonitoredListProofs MonitoredListHistory.
 Open Scope Z_scope.
 
 (* --- clause 1+2a: contents and errors are those of a built-in list; a failed call changes
@@ -30,6 +30,23 @@ Theorem mfl_focus_valid_all_histories :
     end.
 Proof. intros ops s Hv. apply valid_focus_observable. apply run_preserves. exact Hv. Qed.
 Print Assumptions mfl_focus_valid_all_histories.
+
+(* --- clause 1 over whole histories: after ANY operation sequence the contents are those of a
+       built-in list driven by the same calls (a failed call leaves it unchanged), the i-th call
+       reports exactly the error the built-in list raises at that point, there is one output per
+       call, and 'modified' fires at most once per call and never for a failed one --- *)
+Theorem mfl_refines_list_all_histories :
+  forall ops s, Valid s ->
+    items (fst (run s ops)) = list_run (items s) ops /\
+    map (fun r => o_err (fst r)) (snd (run s ops)) = list_errs (items s) ops /\
+    length (snd (run s ops)) = length ops /\
+    Forall (fun r => (n_modified (o_events (fst r)) <= 1)%nat /\
+                     (o_err (fst r) <> None -> o_events (fst r) = [])) (snd (run s ops)).
+Proof.
+  intros ops s Hv. split; [exact (run_items ops s Hv)|]. split; [exact (run_errs ops s Hv)|].
+  exact (run_modified_bound ops s Hv).
+Qed.
+Print Assumptions mfl_refines_list_all_histories.
 
 (* --- clause 3 (focus follows its item), operations that remove one contiguous block [p,q)
        and insert xs there: item/slice(step 1) assignment and deletion, insert, append, extend,
@@ -139,4 +156,11 @@ Example run_somewhere :
                         [DelSlice (Some 3) (Some 1) (Some (-1)); Insert 0 7; SetFocus 9] in
   (items s, focus s, map (fun x => o_err (fst x)) outs)
   = ([7; 10; 11], Some 2, [None; None; Some IndexError]).
+Proof. vm_compute. reflexivity. Qed.
+
+(* the built-in-list reference of the whole-history theorem computes, including a failed call *)
+Example list_run_somewhere :
+  let ops := [DelSlice (Some 3) (Some 1) (Some (-1)); Insert 0 7; SetFocus 9] in
+  (list_run [10; 11; 12; 13] ops, list_errs [10; 11; 12; 13] ops)
+  = ([7; 10; 11], [None; None; Some IndexError]).
 Proof. vm_compute. reflexivity. Qed.
